@@ -14,6 +14,7 @@ INST = {
 UNITS = {
     "drv": ("units/drv.rs", None),
     "final": ("units/final.rs", None),
+    "time": ("units/time.rs", None),
     "map.f64": ("units/map.rs", "f64"),
     "map.of64": ("units/map.rs", "of64"),
     "feat.of64": ("units/feat.rs", "of64"),
@@ -56,6 +57,12 @@ PLAN["C20"] = dict(
 
 PLAN["C13"] = dict(
     verus=dict(quick=["map.f64"], thorough=["map.f64", "map.of64"]),
+    kani=dict(quick=[], thorough=[]),
+    level="proof",
+)
+
+PLAN["C16"] = dict(
+    verus=dict(quick=["time"], thorough=["time"]),
     kani=dict(quick=[], thorough=[]),
     level="proof",
 )
